@@ -478,11 +478,17 @@ Proof.
     { unfold frame. splits; auto; try lia.
       intros b Hb. exfalso; eapply obound_seekable; eauto. }
     pose proof Hfr as (A1 & A2 & A3 & A4 & A5 & A6 & A7 & A8).
-    exists (s_cur s1 (length (sbody s1))), (Some (mkS (sbody s1) 0 MHeld false (sform s1))). splits.
+    assert (Hmode1' : smode (s_cur s1 (length (sbody s1))) = MHeld) by exact Hmode1.
+    destruct (held_seek0 _ _ _ HR1' Hmode1') as [HR3 Hfr3].
+    pose proof HRn as (Hin & _).
+    exists (s_cur s1 0), (Some (mkS (sbody s1) 0 MHeld false (sform s1))). splits.
     + left. unfold sstep. rewrite Es. reflexivity.
-    + exact HR1'.
-    + apply (frame_trans h h1 h2 r r1 r1); auto. exact (proj1 HR).
+    + exact HR3.
+    + apply (frame_trans h h1 _ r r1 r1); auto. exact (proj1 HR).
+      apply (frame_trans h1 h2 _ r1 r1 r1); auto.
     + cbn [new_ok]. eexists. splits; eauto; try lia; try congruence.
+      all: try (apply (R_frame h2); auto; apply upd_other; lia).
+      all: try (rewrite upd_next; lia).
   - destruct Hconv as (Hy1 & HR2). subst y1. injection H as <- <- <- <-.
     exists s2, None. splits; auto; [|reflexivity].
     left. unfold sstep. rewrite Es. reflexivity.
